@@ -109,10 +109,11 @@ Path(a, b) == IF a = b THEN <<>> ELSE IF NextSt(a) = b THEN <<b>> ELSE <<NextSt(
 \*   pend    per handler: state changes that happened and were not yet delivered to it
 \*   qlen    queue length observed after the last step
 \*   q       per MAC: q queued (as far as the contract knows), hi/lo time since the first/latest
-\*           accepted submission (saturating at ttl+1), fl handed to the handler and not yet returned,
+\*           accepted submission (saturating at ttl+1), amb: re-submitted after the first submission had expired
+\*           (merged into the old request or a new arrival: position unknown), fl handed to the handler and not yet returned,
 \*           fhi/flo the ages of the copy in the handler's hands
 \*   ord     MACs in arrival order
-Absent == [q |-> FALSE, hi |-> 0, lo |-> 0, fl |-> FALSE, fhi |-> 0, flo |-> 0]
+Absent == [q |-> FALSE, hi |-> 0, lo |-> 0, amb |-> FALSE, fl |-> FALSE, fhi |-> 0, flo |-> 0]
 G0(cfg) == [st |-> cfg.st0, fails |-> 0, recons |-> 0, pend |-> [h \in 1..cfg.nh |-> <<>>], qlen |-> 0,
             q |-> [m \in 1..cfg.nmac |-> Absent], ord |-> <<>>]
 
@@ -175,7 +176,10 @@ HandlerClauses(cfg, g, e) ==
 Expired(cfg, a, off) == a + off > cfg.ttl
 
 \* handing out the request at position i of ord: the ones ahead of it were skipped (expired) and are gone
-Skip(q, ord, i) == [m \in DOMAIN q |-> IF \E j \in 1..(i - 1) : ord[j] = m THEN [q[m] EXCEPT !.q = FALSE, !.hi = 0, !.lo = 0] ELSE q[m]]
+Skip(q, ord, i) == [m \in DOMAIN q |-> IF \E j \in 1..(i - 1) : ord[j] = m THEN [q[m] EXCEPT !.q = FALSE, !.hi = 0, !.lo = 0, !.amb = FALSE] ELSE q[m]]
+\* request m is handed out: unless its own position is unknown (amb), everything ahead of it is gone
+Taken(q, ord, m)    == IF q[m].amb THEN q ELSE Skip(q, ord, IndexOf(ord, m))
+OrdAfter(q, ord, m) == IF q[m].amb THEN Without(ord, m) ELSE DropUpTo(ord, IndexOf(ord, m))
 
 \* effect of the operation itself (at offset 0) on [q, ord]
 OpEffect(cfg, g, e) ==
@@ -183,14 +187,15 @@ OpEffect(cfg, g, e) ==
        IF g.q[e.a].q THEN
             \* merged into the queued request - unless that one has meanwhile expired and was dropped, in which case this
             \* is a new arrival at the back: if the first submission has expired the position is taken to be the back
-            [q |-> [g.q EXCEPT ![e.a].lo = 0],
-             ord |-> IF Expired(cfg, g.q[e.a].hi, 0) THEN Append(Without(g.ord, e.a), e.a) ELSE g.ord]
-       ELSE [q |-> [g.q EXCEPT ![e.a].q = TRUE, ![e.a].hi = 0, ![e.a].lo = 0], ord |-> Append(g.ord, e.a)]
+            IF Expired(cfg, g.q[e.a].hi, 0)     \* (every time: the latest possible position)
+              THEN [q |-> [g.q EXCEPT ![e.a].lo = 0, ![e.a].amb = TRUE], ord |-> Append(Without(g.ord, e.a), e.a)]
+              ELSE [q |-> [g.q EXCEPT ![e.a].lo = 0], ord |-> g.ord]
+       ELSE [q |-> [g.q EXCEPT ![e.a].q = TRUE, ![e.a].hi = 0, ![e.a].lo = 0, ![e.a].amb = FALSE], ord |-> Append(g.ord, e.a)]
   ELSE IF e.op = "deq" /\ e.ret > 0 THEN
-       [q |-> [Skip(g.q, g.ord, IndexOf(g.ord, e.ret)) EXCEPT ![e.ret].q = FALSE, ![e.ret].hi = 0, ![e.ret].lo = 0],
-        ord |-> DropUpTo(g.ord, IndexOf(g.ord, e.ret))]
+       [q |-> [Taken(g.q, g.ord, e.ret) EXCEPT ![e.ret].q = FALSE, ![e.ret].hi = 0, ![e.ret].lo = 0, ![e.ret].amb = FALSE],
+        ord |-> OrdAfter(g.q, g.ord, e.ret)]
   ELSE IF e.op = "rem" THEN
-       [q |-> [g.q EXCEPT ![e.a].q = FALSE, ![e.a].hi = 0, ![e.a].lo = 0], ord |-> Without(g.ord, e.a)]
+       [q |-> [g.q EXCEPT ![e.a].q = FALSE, ![e.a].hi = 0, ![e.a].lo = 0, ![e.a].amb = FALSE], ord |-> Without(g.ord, e.a)]
   ELSE [q |-> g.q, ord |-> g.ord]
 
 \* requests ahead of position i that surely have not expired at offset off
@@ -204,7 +209,7 @@ OpClauses(cfg, g, e) ==
   ELSE IF e.op = "deq" THEN
        IF e.ret = 0 THEN (IF LiveAhead(cfg, g.q, g.ord, Len(g.ord) + 1, 0) # {} THEN {"FifoOrder"} ELSE {})
        ELSE IF ~g.q[e.ret].q THEN {"AtMostOnce"}
-       ELSE IF ~Expired(cfg, g.q[e.ret].hi, 0) /\ LiveAhead(cfg, g.q, g.ord, IndexOf(g.ord, e.ret), 0) # {} THEN {"FifoOrder"} ELSE {}
+       ELSE IF ~g.q[e.ret].amb /\ ~Expired(cfg, g.q[e.ret].hi, 0) /\ LiveAhead(cfg, g.q, g.ord, IndexOf(g.ord, e.ret), 0) # {} THEN {"FifoOrder"} ELSE {}
   ELSE {}
 
 \* an upper bound of the queue length: the contract's q is a superset of the queue's content
@@ -215,19 +220,19 @@ RqOne(cfg, acc, r) ==
   LET x == acc.q[r.m]
       i == IndexOf(acc.ord, r.m)
   IN IF r.k = "start" THEN
-       [q   |-> [Skip(acc.q, acc.ord, i) EXCEPT ![r.m] = [q |-> FALSE, hi |-> 0, lo |-> 0, fl |-> TRUE, fhi |-> x.hi, flo |-> x.lo]],
-        ord |-> IF i = 0 THEN acc.ord ELSE DropUpTo(acc.ord, i),
+       [q   |-> [Taken(acc.q, acc.ord, r.m) EXCEPT ![r.m] = [q |-> FALSE, hi |-> 0, lo |-> 0, amb |-> FALSE, fl |-> TRUE, fhi |-> x.hi, flo |-> x.lo]],
+        ord |-> IF i = 0 THEN acc.ord ELSE OrdAfter(acc.q, acc.ord, r.m),
         bad |-> acc.bad
                 \cup (IF ~x.q THEN {"AtMostOnce"} ELSE {})
                 \cup (IF x.q /\ Expired(cfg, x.lo, r.off) THEN {"NoProcessAfterExpiry"} ELSE {})
-                \cup (IF x.q /\ i > 0 /\ ~Expired(cfg, x.hi, r.off) /\ LiveAhead(cfg, acc.q, acc.ord, i, r.off) # {} THEN {"FifoOrder"} ELSE {})]
+                \cup (IF x.q /\ i > 0 /\ ~x.amb /\ ~Expired(cfg, x.hi, r.off) /\ LiveAhead(cfg, acc.q, acc.ord, i, r.off) # {} THEN {"FifoOrder"} ELSE {})]
      ELSE IF r.ok \/ ~x.fl \/ x.q \/ Expired(cfg, x.flo, r.off) THEN
        [acc EXCEPT !.q[r.m].fl = FALSE, !.q[r.m].fhi = 0, !.q[r.m].flo = 0]
      ELSE      \* failed, still valid: "Re-queue if still valid" (to the back).  If the queue may have filled up
                \* meanwhile ("request queue full") the request may have been dropped instead: it is then kept
                \* as "possibly gone" (hi saturated), i.e. it neither counts as surely live nor blocks later ones
        [q   |-> [acc.q EXCEPT ![r.m] = [q |-> TRUE, hi |-> IF MaybeQueued(acc.q) >= cfg.qsize THEN Cap(cfg) ELSE x.fhi,
-                                        lo |-> x.flo, fl |-> FALSE, fhi |-> 0, flo |-> 0]],
+                                        lo |-> x.flo, amb |-> FALSE, fl |-> FALSE, fhi |-> 0, flo |-> 0]],
         ord |-> Append(acc.ord, r.m),
         bad |-> acc.bad]
 
